@@ -10,9 +10,15 @@
    Reset / Depolarizing channels vs the Coq spec  w0 rho + sum w_k E_k rho E_k^dagger  and the
    index-level closed forms of C04/ChannelSpec.v evaluated by vm_compute;
  * channel.to_choi / to_liouville (row, column) / to_pauli_liouville describe that same map;
- * histories interleaving representation queries and executions: every execution gives the same map.
+ * histories interleaving representation queries and executions: every execution gives the same map;
+ * histories WITH ARGUMENTS on one long-lived object (harness/chan_hist.py, model C04/History.v, theorems C04/PropsHistory.v):
+   every class / thermal regime / constructor form, executed in registers of sizes m..4 (directly, in circuits, twice in one
+   queue, in copied / added circuits, state-vector sampling) interleaved with to_choi / to_liouville / to_pauli_liouville for
+   every order x nqubits x normalize x pauli_order; each observation == the fresh object's (exact) == the documented closed
+   form (Coq spec by vm_compute on the exact classes); object attribute tree, constructor inputs, input states and arrays
+   returned earlier stay untouched.
 """
-STATIC = ["C04/LiftTP", "C04/LiftFast", "C04/Object", "C04/Props"]
+STATIC = ["C04/LiftTP", "C04/LiftFast", "C04/Object", "C04/Props", "C04/PropsHistory"]
 import itertools
 import math
 import random
@@ -20,6 +26,7 @@ import random
 import numpy as np
 
 from lib import vcore
+from harness import chan_hist as H
 
 HEADER = ("From Coq Require Import ZArith List Bool.\nFrom QV Require Import Base.Mat Base.Zi C04.ChannelSpec.\n"
           "Import ListNotations.\nLocal Open Scope Z_scope.\n")
@@ -97,7 +104,7 @@ def make_cases(rng, tier):
         qts = [tuple(rng.sample(range(n), rng.randint(1, min(2, n)))) for _ in range(nops)]
         mats = [rand_gint(rng, len(q)) for q in qts]
         terms = "[" + "; ".join(f"(1, {nats(q)}, {zmat(M)})" for q, M in zip(qts, mats)) + "]"
-        cases.append(dict(kind="KrausChannel", n=n, scale=1, qubits=qts, w0=0, terms=terms,
+        cases.append(dict(kind="KrausChannel", n=n, scale=1, qubits=qts, w0=0, terms=terms, np=(0.0, [(1.0, q, M) for q, M in zip(qts, mats)]),
                           build=(lambda qts=qts, mats=mats: gates.KrausChannel(list(qts), [m.astype(complex) for m in mats])),
                           coq=lambda rho, n=n, terms=terms: f"apply_kraus {n}%nat 0 {terms} {zmat(rho)}"))
         # B: UnitaryChannel with dyadic probabilities
@@ -107,6 +114,7 @@ def make_cases(rng, tier):
         mats = [rand_gint(rng, len(q)) for q in qts]
         terms = "[" + "; ".join(f"({w}, {nats(q)}, {zmat(M)})" for w, q, M in zip(ws, qts, mats)) + "]"
         cases.append(dict(kind="UnitaryChannel", n=n, scale=D, qubits=qts, w0=D - sum(ws), terms=terms,
+                          np=((D - sum(ws)) / D, [(w / D, q, M) for w, q, M in zip(ws, qts, mats)]),
                           build=(lambda qts=qts, mats=mats, ws=ws: gates.UnitaryChannel(list(qts), [(w / D, m.astype(complex)) for w, m in zip(ws, mats)])),
                           coq=lambda rho, n=n, terms=terms, ws=ws: f"apply_kraus {n}%nat {D - sum(ws)} {terms} {zmat(rho)}"))
         # C: PauliNoiseChannel
@@ -122,6 +130,7 @@ def make_cases(rng, tier):
             return M
         terms = "[" + "; ".join(f"({w}, {nats(qs)}, {zmat(pmat(s))})" for w, s in zip(ws, strings)) + "]"
         cases.append(dict(kind="PauliNoiseChannel", n=n, scale=D, qubits=[qs], w0=D - sum(ws), terms=terms,
+                          np=((D - sum(ws)) / D, [(w / D, qs, pmat(st)) for w, st in zip(ws, strings)]),
                           build=(lambda qs=qs, strings=strings, ws=ws: gates.PauliNoiseChannel(qs, [(s, w / D) for s, w in zip(strings, ws)])),
                           coq=lambda rho, n=n, terms=terms, ws=ws: f"apply_kraus {n}%nat {D - sum(ws)} {terms} {zmat(rho)}"))
     # F: every documented constructor input form of KrausChannel / UnitaryChannel, with GATE operators re-placed on a
@@ -152,16 +161,18 @@ def make_cases(rng, tier):
             termsK = "[" + "; ".join(f"(1, {nats(qq)}, {zmat(Mk)})" for qq, Mk in decl) + "]"
             termsU = "[" + "; ".join(f"({w}, {nats(qq)}, {zmat(Mk)})" for w, (qq, Mk) in zip(ws, decl)) + "]"
             cases.append(dict(kind="KrausChannel", form=form, decl=decl, n=n, scale=1, qubits=[qq for qq, _ in decl], w0=0, terms=termsK,
+                              np=(0.0, [(1.0, qq, Mk) for qq, Mk in decl]),
                               build=(lambda mk=mk: gates.KrausChannel(*mk())),
                               coq=lambda rho, n=n, terms=termsK: f"apply_kraus {n}%nat 0 {terms} {zmat(rho)}"))
             cases.append(dict(kind="UnitaryChannel", form=form, decl=decl, n=n, scale=D, qubits=[qq for qq, _ in decl], w0=D - sum(ws), terms=termsU,
+                              np=((D - sum(ws)) / D, [(w / D, qq, Mk) for w, (qq, Mk) in zip(ws, decl)]),
                               build=(lambda mk=mk, ws=ws: (lambda qo: gates.UnitaryChannel(qo[0], [(w / D, o) for w, o in zip(ws, qo[1])]))(mk())),
                               coq=lambda rho, n=n, terms=termsU, ws=ws: f"apply_kraus {n}%nat {D - sum(ws)} {terms} {zmat(rho)}"))
     # D: ResetChannel at every position
     for n in range(1, nmax + 1):
         for q in range(n):
             w0, w1 = rng.randint(0, D // 2), rng.randint(0, D // 2)
-            cases.append(dict(kind="ResetChannel", n=n, scale=D, qubits=[(q,)],
+            cases.append(dict(kind="ResetChannel", n=n, scale=D, qubits=[(q,)], sup=((q,), H.super_reset(w0 / D, w1 / D)),
                               build=(lambda q=q, w0=w0, w1=w1: gates.ResetChannel(q, [w0 / D, w1 / D])),
                               coq=lambda rho, n=n, q=q, w0=w0, w1=w1: f"reset_closed {n}%nat {q}%nat {D - w0 - w1} {w0} {w1} {zmat(rho)}"))
     # E: DepolarizingChannel on 1 and 2 qubits, every ordered placement
@@ -174,7 +185,7 @@ def make_cases(rng, tier):
                     continue
                 wl = rng.randint(1, 12)            # lam = wl * 2^k / D
                 lamD = wl * 2 ** k
-                cases.append(dict(kind="DepolarizingChannel", n=n, scale=D, qubits=[qs],
+                cases.append(dict(kind="DepolarizingChannel", n=n, scale=D, qubits=[qs], sup=(qs, H.super_depol(k, lamD / D)),
                                   build=(lambda qs=qs, lamD=lamD: gates.DepolarizingChannel(qs, lamD / D)),
                                   coq=lambda rho, n=n, qs=qs, lamD=lamD, wl=wl: f"depol_closed {n}%nat {nats(qs)} {D - lamD} {wl} {zmat(rho)}"))
     # G: DepolarizingChannel as the documented Pauli mixture, k = 1, 2, 3 target qubits (3 of n = 3 and of n = 4, unsorted /
@@ -199,6 +210,7 @@ def make_cases(rng, tier):
         terms = "[" + "; ".join(f"({wp}, {nats(qs)}, {zmat(M)})" for _, M in decl) + "]"
         w0 = Dk - wp * (4 ** k - 1)
         cases.append(dict(kind="DepolarizingChannel", form="pauli_mixture", n=n, scale=Dk, qubits=[qs], w0=w0, terms=terms,
+                          sup=(qs, H.super_depol(k, wp * 4 ** k / Dk)),
                           mixture=dict(strings=strings, weight=wp / Dk, decl=decl),
                           build=(lambda qs=qs, lam=wp * 4 ** k / Dk: gates.DepolarizingChannel(qs, lam)),
                           coq=lambda rho, n=n, qs=qs, k=k, wp=wp, Dk=Dk:
@@ -420,8 +432,115 @@ def fast_vs_kraus(run, rng, tier):
                           {"n": n, "qubit": q, "params": params})
 
 
+# ----------------------------------------------------------------------------- histories with arguments (C04/History.v)
+CONCRETE = ("history_vs_fresh", "fresh_vs_spec", "input_mutated", "returned_array_changed", "constructor_input_mutated")
+
+
+def history_specs(rng, cases, tier):
+    """exact specs (one per class / constructor form, from make_cases) + the sqrt/exp classes of chan_hist"""
+    specs, seen = [], {}
+    for i, cs in enumerate(cases):
+        tag = (cs["kind"], cs.get("form", "plain"))
+        lim = 2 if tag[1] == "plain" and cs["kind"] in ("ResetChannel", "DepolarizingChannel") else 1
+        if tier == "thorough":
+            lim += 1
+        if seen.get(tag, 0) >= lim or (tag[1] == "pauli_mixture" and len(cs["qubits"][0]) not in (2, 3)):
+            continue
+        if tag[1] == "plain" and cs["kind"] in ("ResetChannel", "DepolarizingChannel") and rng.random() < 0.5 and i + 4 < len(cases):
+            continue                              # not always the first placement
+        seen[tag] = seen.get(tag, 0) + 1
+        m = 1 + max(q for qq in cs["qubits"] for q in qq)
+        oracle = H.oracle_terms(*cs["np"]) if "np" in cs else H.oracle_super(*cs["sup"])
+        specs.append(H.Spec(f"{cs['kind']}:{tag[1]}:{i}", cs["kind"], cs["build"], m, oracle, exact=True, coq=cs["coq"], scale=cs["scale"],
+                            sv=cs["kind"] in ("UnitaryChannel", "PauliNoiseChannel", "DepolarizingChannel"),
+                            info={"class": cs["kind"], "form": tag[1], "qubits": [list(q) for q in cs["qubits"]]}))
+    return specs + H.irrational_specs(rng)
+
+
+def history_stream(run, rng, cases, only=None):
+    """one object per (spec, history); see harness/chan_hist.py.  only = (spec name, ops) for a replay."""
+    specs = history_specs(rng, cases, run.tier)
+    found, nobs, coq_items, coq_meta, seen_coq = {}, 0, [], [], set()
+    nrand = 1 if run.tier == "quick" else 4
+    per_class = {}
+    for sp in specs:
+        if only is not None:
+            if sp.name != only[0]:
+                continue
+            hists = [("replay", only[1])]
+        else:
+            hists = [(fl, H.gen_history(rng, sp, 4, 10, flavour=fl)) for fl in ["sizes", "orders"] + ["random"] * nrand]
+        for fl, ops in hists:
+            problems, records = H.run_history(sp, ops, run.seed)
+            nobs += sum(1 for o in ops if o[0] != "scribble")
+            per_class[sp.cls] = per_class.get(sp.cls, 0) + 1
+            run.case(["history", sp.name, ops])
+            if len(run.samples) < 12 and fl != "sizes":
+                run.sample({"stream": "history", "spec": sp.name, **sp.info, "history": ops[:8]})
+            for pb in problems:
+                key = f"history:{sp.cls}:{pb['what']}:{pb['op'][0]}"
+                conc = pb["what"] in CONCRETE
+                if key not in found or (conc and not found[key][2]):
+                    found[key] = (f"{sp.name}: step {pb['step']} {pb['op']} of a history on ONE object: {pb['detail']}"
+                                  + (f" (max difference {pb['max_diff']:.3g})" if pb.get("max_diff") is not None else ""),
+                                  {"stream": "history", "spec": sp.name, **sp.info, "history": ops[:pb["step"] + 1], "step": pb["step"],
+                                   "what": pb["what"]}, conc)
+            if sp.exact:                         # fresh executions against the Coq spec, one per (spec, register size, rho)
+                for op, val in records:
+                    if op[0] != "exec" or op[2] not in ("circuit", "direct"):
+                        continue
+                    k = (sp.name, op[1])
+                    if k in seen_coq:
+                        continue
+                    seen_coq.add(k)
+                    rho = H.rho_for(run.seed, op[1], op[3])
+                    coq_items.append(sp.coq(rho, n=op[1]))
+                    coq_meta.append((sp, op, val, ops))
+    # a model-level disagreement without a failing observation is reported as such (no failing input)
+    has_concrete = {k.split(":")[1] for k, v in found.items() if v[2]}
+    for key, (what, rp, conc) in found.items():
+        if not conc and key.split(":")[1] in has_concrete:
+            continue
+        run.find(key, what, rp, concrete=conc)
+    # exact part: ChannelSpec by vm_compute
+    nbad = 0
+    if coq_items:
+        from concurrent.futures import ThreadPoolExecutor
+        chunks = [list(range(i, len(coq_items), 4)) for i in range(4)]
+
+        def work(j):
+            idxs = chunks[j]
+            return idxs, (run.coq_eval(f"C04_hist_{j}.v", HEADER, [coq_items[i] for i in idxs], timeout=900) if idxs else [])
+        with ThreadPoolExecutor(max_workers=4) as ex:
+            for idxs, vals in ex.map(work, range(4)):
+                for pos, i in enumerate(idxs):
+                    sp, op, val, ops = coq_meta[i]
+                    run.case(["history_exec_vs_coq", sp.name, op])
+                    if vals is None:
+                        run.find("coq:C04_hist", "spec evaluation file of the history stream does not compile", concrete=False)
+                        nbad += 1
+                        break
+                    want = parse_zmat(vals[pos])
+                    got = np.asarray(val) * sp.scale
+                    if got.shape != want.shape or np.abs(got - want).max() > 1e-7:
+                        nbad += 1
+                        run.find(f"history:{sp.cls}:fresh_vs_coq_spec:exec",
+                                 f"{sp.name}: {op} on a fresh object differs from C04/ChannelSpec.v",
+                                 {"stream": "history", "spec": sp.name, **sp.info, "history": [op], "step": 0, "what": "fresh_vs_coq_spec"})
+    ok = not found
+    run.oblige("history_every_observation_equals_fresh_object_and_closed_form", ok, "correspondence")
+    run.oblige("history_fresh_executions_equal_ChannelSpec_every_register_size", nbad == 0, "correspondence")
+    run.notes["history_stream"] = {"specs": len(specs), "histories_per_class": per_class, "observations": nobs,
+                                   "coq_exec_evaluations": len(coq_items),
+                                   "register_sizes": "m..4 (m = 1 + largest target)", "thermal_t1<t2_views_oracle":
+                                   "the object's own Kraus list (known finding: it differs from the simulated closed form)"}
+    return found
+
+
 RULE = ("channel class x qubit placement (every position, non-ascending tuples) x random Gaussian-integer rho "
         "(Hermitian and non-Hermitian) x dyadic probabilities; plus representation queries and query/execute histories; "
+        "plus histories with arguments on one object per (class / regime / constructor form): register sizes m..4 x execution "
+        "variants x orders x nqubits x normalize x pauli_order, each observation vs a fresh object and the closed form; "
         "distinct = distinct (class, placement, weights, rho)")
 
 
@@ -432,7 +551,7 @@ def main(run):
                     "C04/ChannelSpec.v executable spec (hand-written from the documented formulas)",
                     "numeric comparison (1e-14) of constructor-built Kraus operators with the documented lists: sqrt/exp are irreducibly real"]
     run.assumptions += ["exact real arithmetic in the theorems; correspondence data are integers/dyadics so floats are exact"]
-    for t in vcore.props_theorems("C04/Props.v") + vcore.props_theorems("C04/Object.v"):
+    for t in vcore.props_theorems("C04/Props.v") + vcore.props_theorems("C04/Object.v") + vcore.props_theorems("C04/PropsHistory.v"):
         run.oblige(t, True, "static-theorem")
     ok, pa = vcore.static_assumptions("C04/Props")
     run.notes["print_assumptions"] = {k: v[:200] for k, v in pa.items()}
@@ -521,6 +640,7 @@ def main(run):
     run.oblige("correspondence_dm_execution_equals_declared_map", nbad == 0, "correspondence")
     views_exact(run, cases)
     mixture_checks(run, rng, cases)
+    history_stream(run, random.Random(f"hist:{run.seed}"), cases)
     kraus_lists(run, rng)
     fast_vs_kraus(run, rng, run.tier)
     for key, stt in _checks.items():
@@ -539,4 +659,14 @@ def main(run):
 
 
 def replay(run, data):
+    rp = data.get("replay") or {}
+    if rp.get("stream") == "history":
+        # the corpus is a function of the seed: rebuild it, pick the recorded constructor call, re-run the recorded history
+        run.seed = int(data.get("seed", run.seed))
+        run.tier = data.get("tier", run.tier)
+        _checks.clear()
+        cases = make_cases(random.Random(run.seed), run.tier)
+        found = history_stream(run, random.Random(f"hist:{run.seed}"), cases, only=(rp["spec"], rp["history"]))
+        run.findings = [f for f in run.findings if f.key == data.get("key")][:1] or run.findings[:1]
+        return run.finish(rule="replay of one recorded history on one channel object")
     return main(run)
